@@ -222,16 +222,39 @@ Qed.
 Lemma css_body_cap u : css_body_ok u = true -> forallb cap_char u = true.
 Proof. unfold css_body_ok. intros H. apply andb_prop in H as [H _]. apply andb_prop in H as [H _]. exact H. Qed.
 
-Lemma tok_cap (t : ctok) : wf_ctok t = true -> forallb cap_char (ct_q t ++ ct_url t ++ ct_q t) = true.
+Lemma pad_cap p : forallb is_pad p = true -> forallb cap_char p = true.
 Proof.
-  unfold wf_ctok. intros H. apply andb_prop in H as [H H1]. apply andb_prop in H as [_ H0].
-  rewrite !forallb_app, (quote_cap _ H0), (css_body_cap _ H1). reflexivity.
+  induction p as [|c p IH]; cbn [forallb]; auto. intros H. apply andb_prop in H as [Hc Hp].
+  rewrite (IH Hp), andb_true_r. unfold is_pad in Hc.
+  apply orb_prop in Hc as [Hc|Hc]; apply Ascii.eqb_eq in Hc; subst c; reflexivity.
+Qed.
+
+Lemma pad_space p : forallb is_pad p = true -> forallb is_space p = true.
+Proof.
+  induction p as [|c p IH]; cbn [forallb]; auto. intros H. apply andb_prop in H as [Hc Hp].
+  rewrite (IH Hp), andb_true_r. unfold is_pad in Hc.
+  apply orb_prop in Hc as [Hc|Hc]; apply Ascii.eqb_eq in Hc; subst c; reflexivity.
+Qed.
+
+Lemma tok_cap (t : ctok) : wf_ctok t = true -> forallb cap_char (ct_inner t) = true.
+Proof.
+  unfold wf_ctok, ct_inner. intros H. apply andb_prop in H as [H Hp2]. apply andb_prop in H as [H Hp1].
+  apply andb_prop in H as [H H1]. apply andb_prop in H as [_ H0].
+  rewrite !forallb_app, (quote_cap _ H0), (css_body_cap _ H1), (pad_cap _ Hp1), (pad_cap _ Hp2). reflexivity.
+Qed.
+
+Lemma css_scan_tok_gen w rest :
+  forallb cap_char w = true ->
+  css_scan UIdle (url4 ++ w ++ ")" :: rest) = w :: css_scan UIdle rest.
+Proof.
+  intros H. cbn [url4 bs list_ascii_of_string app].
+  unfold css_scan at 1; fold css_scan. cbn [prefixb Ascii.eqb Bool.eqb andb bs list_ascii_of_string].
+  rewrite css_scan_cap by auto. reflexivity.
 Qed.
 
 Lemma css_scan_complete toks tail :
   forallb wf_ctok toks = true ->
-  css_scan UIdle (render_css (toks, tail))
-  = map (fun t => ct_q t ++ ct_url t ++ ct_q t) toks ++ css_scan UIdle tail.
+  css_scan UIdle (render_css (toks, tail)) = map ct_inner toks ++ css_scan UIdle tail.
 Proof.
   unfold render_css. simpl fst; simpl snd.
   induction toks as [|t toks IH]; intros H; [reflexivity|].
@@ -239,12 +262,35 @@ Proof.
   simpl flat_map. unfold render_ctok at 1. fold url4.
   rewrite <- !app_assoc.
   assert (Hf : containsb url4 (ct_fill t) = false).
-  { unfold wf_ctok in Ht. apply andb_prop in Ht as [Ht _]. apply andb_prop in Ht as [Ht _].
-    apply negb_true_iff. exact Ht. }
+  { unfold wf_ctok in Ht. repeat (apply andb_prop in Ht as [Ht _]). apply negb_true_iff. exact Ht. }
   rewrite css_scan_fill by exact Hf.
   simpl ([")"] ++ _).
-  rewrite css_scan_tok by (apply tok_cap; exact Ht).
+  rewrite css_scan_tok_gen by (apply tok_cap; exact Ht).
   simpl. f_equal. apply IH. exact Hr.
+Qed.
+
+(* ---------- trimming around the pads *)
+Lemma trim_left_app a b :
+  trim_left (a ++ b) = if forallb is_space a then trim_left b else trim_left a ++ b.
+Proof.
+  induction a as [|c a IH]; simpl; auto.
+  destruct (is_space c); simpl; auto.
+Qed.
+
+Lemma trim_left_allspace a : forallb is_space a = true -> trim_left a = [].
+Proof.
+  induction a as [|c a IH]; simpl; auto.
+  intros H. apply andb_prop in H as [Hc Ha]. rewrite Hc. auto.
+Qed.
+
+Lemma trim_space_pads p1 m p2 :
+  forallb is_space p1 = true -> forallb is_space p2 = true ->
+  trim_space (p1 ++ m ++ p2) = trim_space m.
+Proof.
+  intros H1 H2. unfold trim_space. rewrite trim_left_app, H1, trim_left_app.
+  destruct (forallb is_space m) eqn:Hm.
+  - rewrite (trim_left_allspace _ H2), (trim_left_allspace _ Hm). reflexivity.
+  - unfold trim_right. rewrite rev_app_distr, trim_left_app, forallb_rev, H2. reflexivity.
 Qed.
 
 Lemma css_rewrite_tok q u :
@@ -298,15 +344,18 @@ Proof.
   - rewrite map_app. apply in_or_app. left. rewrite map_map. apply in_map_iff.
     exists t. split; auto.
     assert (Hw : wf_ctok t = true) by (rewrite forallb_forall in Ht; auto).
-    unfold wf_ctok in Hw. apply andb_prop in Hw as [Hw Hb]. apply andb_prop in Hw as [_ Hq].
-    apply css_rewrite_tok; auto.
+    unfold wf_ctok in Hw. apply andb_prop in Hw as [Hw Hp2]. apply andb_prop in Hw as [Hw Hp1].
+    apply andb_prop in Hw as [Hw Hb]. apply andb_prop in Hw as [_ Hq].
+    unfold ct_inner, css_rewrite.
+    rewrite trim_space_pads by (apply pad_space; assumption).
+    apply (css_rewrite_tok (ct_q t) (ct_url t)); auto.
   - exact Hk.
 Qed.
 
 (* exactly the tokens, nothing else, come out of a well-formed style text *)
 Lemma css_scan_exact (d : list ctok * bytes) :
   wf_css d = true ->
-  css_scan UIdle (render_css d) = map (fun t => ct_q t ++ ct_url t ++ ct_q t) (fst d).
+  css_scan UIdle (render_css d) = map ct_inner (fst d).
 Proof.
   destruct d as [toks tail]. unfold wf_css. simpl fst; simpl snd. intros H.
   apply andb_prop in H as [Ht Htail]. rewrite css_scan_complete by exact Ht.
@@ -432,8 +481,8 @@ Example srcset_nonvacuous :
 Proof. vm_compute. split; reflexivity. Qed.
 
 Example css_nonvacuous :
-  let d := ([CTok (bs "a{background:") (bs "'") (bs "/i/x.png"); CTok (bs " rgb(1,2,3) ") [] (bs "y.png");
-             CTok (bs ";b:") (bs """") (bs "/img/o'brien.png"); CTok (bs ";c:") [] (bs "//cdn.example.net/x//y.png")], bs "}") in
+  let d := ([CTok (bs "a{background:") [] (bs "'") (bs "/i/x.png") []; CTok (bs " rgb(1,2,3) ") (bs " ") [] (bs "y.png") (bs "  ");
+             CTok (bs ";b:") (bs " ") (bs """") (bs "/img/o'brien.png") []; CTok (bs ";c:") [] [] (bs "//cdn.example.net/x//y.png") []], bs "}") in
   wf_css d = true
   /\ css_urls (render_css d) = [bs "/i/x.png"; bs "y.png"; bs "/img/o'brien.png"; bs "//cdn.example.net/x//y.png"].
 Proof. vm_compute. split; reflexivity. Qed.
